@@ -39,9 +39,29 @@ def is_unpack_call(e):
     return isinstance(e, ast.Call) and (dotted(e) in UNPACKERS or call_name(e) in ("unpack", "unpack_from"))
 
 
+def derive_sources(functions):
+    """INT_SOURCES extended by the repo functions that *return* a stream-decoded integer (by bare name; least fixpoint): load_int() -> _r_long(self) etc."""
+    src = set(INT_SOURCES)
+    for _ in range(6):
+        grew = False
+        for q, fn in functions.items():
+            bare = q.rsplit(".", 1)[-1]
+            if bare in src or bare.startswith("__"):
+                continue
+            ct = CountTaint(fn, src)
+            rets = [n for n in ast.walk(fn) if isinstance(n, ast.Return) and n.value is not None]
+            if rets and all(ct.int_tainted(r.value) for r in rets):
+                src.add(bare)
+                grew = True
+        if not grew:
+            break
+    return src
+
+
 class CountTaint(object):
-    def __init__(self, fn):
+    def __init__(self, fn, sources=None):
         self.fn = fn
+        self.sources = sources if sources is not None else INT_SOURCES
         self.tainted = set()
         self.validated = set()
         self._fix()
@@ -54,7 +74,7 @@ class CountTaint(object):
             return True
         if isinstance(e, ast.Call):
             n = call_name(e)
-            if n in INT_SOURCES:
+            if n in self.sources:
                 return True
             if n in ("int", "abs", "long", "max") and e.args:
                 return any(self.int_tainted(a) for a in e.args)
@@ -62,9 +82,19 @@ class CountTaint(object):
                 return bool(e.args) and all(self.int_tainted(a) for a in e.args)
             return False
         if isinstance(e, ast.BinOp):
-            if isinstance(e.op, (ast.Mod, ast.BitAnd)):
-                # n % K and n & K are bounded by the untainted operand
+            if isinstance(e.op, ast.Mod):
+                # n % K is bounded by the untainted operand
                 return self.int_tainted(e.left) and self.int_tainted(e.right)
+            if isinstance(e.op, ast.BitAnd):
+                # n & K is bounded by K only when K is a non-negative constant (n & ~0xF keeps every high bit of n)
+                for a, b in ((e.left, e.right), (e.right, e.left)):
+                    try:
+                        k = eval(compile(ast.Expression(body=b), "<mask>", "eval"), {"__builtins__": {}}, {})
+                    except Exception:
+                        k = None
+                    if isinstance(k, int) and k >= 0 and not self.int_tainted(b):
+                        return False
+                return self.int_tainted(e.left) or self.int_tainted(e.right)
             return self.int_tainted(e.left) or self.int_tainted(e.right)
         if isinstance(e, ast.UnaryOp):
             return self.int_tainted(e.operand)
@@ -147,6 +177,8 @@ class CountTaint(object):
                 n = call_name(node)
                 if n in ("bytearray", "bytes") and isinstance(node.func, ast.Name) and len(node.args) == 1 and self.int_tainted(node.args[0]):
                     out.append((node, "sized-buffer", ast.unparse(node)))
+                elif isinstance(node.func, ast.Attribute) and node.func.attr in ("ljust", "rjust", "center", "zfill") and node.args and self.int_tainted(node.args[0]):
+                    out.append((node, "padded-buffer", ast.unparse(node)))
                 elif n in MATERIALISERS and isinstance(node.func, ast.Name) and len(node.args) >= 1 and self._tainted_range(node.args[0]):
                     out.append((node, "materialised-range", ast.unparse(node)))
             elif isinstance(node, (ast.ListComp, ast.SetComp, ast.DictComp)):
@@ -169,12 +201,15 @@ def t_control(self, save_ref):
     b = bytearray(m)
     c = [0 for _ in range(n)]
     d = list(range(m))
+    pad = (n + 15) & ~0xF
+    e = self.fp.read(4).ljust(pad, b"-")
+    small = b"".ljust(n & 0xFF)
     ok = [self.r_object() for _ in range(n)]
     k = unpack("<i", self.fp.read(4))[0]
     if k > 1000:
         raise ValueError("too big")
     fine = [None] * k
-    return a, b, c, d, ok, fine
+    return a, b, c, d, e, small, ok, fine
 '''
 
 
